@@ -218,11 +218,29 @@ func (p *parser) parseIndexOrSliceExpr(left Node, allowSlice bool) Node {
 		return nil
 	}
 	p.advanceWSS() // advance past ]
+	inferLiteral(left)
 	t := fixedType(left.Type().Sub) // an element is not a constant, even if it is a composite
 	if leftType == STRING {
 		t = STRING_TYPE
 	}
 	return &IndexExpression{token: tok, Left: left, Index: index, T: t}
+}
+
+// inferLiteral gives the untyped empty literals inside an array or map
+// literal their inferred type (`[[]]` becomes [][]any) when an element or
+// field is taken from the literal directly: no context can type them later.
+func inferLiteral(n Node) {
+	for {
+		g, ok := n.(*GroupExpression)
+		if !ok {
+			break
+		}
+		n = g.Expr
+	}
+	switch n.(type) {
+	case *ArrayLiteral, *MapLiteral:
+		n.(inferrer).infer()
+	}
 }
 
 func (p *parser) validateIndex(tok *lexer.Token, leftType TypeName, indexType *Type) bool {
@@ -291,6 +309,7 @@ func (p *parser) parseDotExpr(left Node) Node {
 		p.appendErrorForToken(`expected map key, found `+p.cur.TokenType().String(), tok)
 		return nil
 	}
+	inferLiteral(left)
 	expr := &DotExpression{token: tok, Left: left, T: fixedType(left.Type().Sub), Key: key.Literal}
 	p.advance() // advance past key IDENT
 	return expr
